@@ -13,14 +13,14 @@ LEVEL_TEXT = {
 DEFAULT_LEVEL = ('Static necessary conditions: each rule decides a structural clause of the property whose violation breaks the behaviour for some input/schedule, on every instance in the current MIR (never a sample). '
                  'The quantification over schedules/inputs is discharged compositionally through the stated dependency contracts; the behaviour as such is not executed or claimed.')
 TECH = {
- 'C01': 'origin-term dataflow over MIR: merge-key / slot provenance, append-only buffers, k-way-merge def-use facts, dominance of capacity reservation; per-path upper-bound analysis of the chunk-size resolution; receiver types of the source constructors; case re-execution of every pull-driven kernel loop, filtering adaptor and search closure with the user predicate / has_value fixed (accepted elements feed the result on every path, rejected ones on none: must-pass-through on the pruned CFG); must-pass-through of element carriers (runner result, iterator parameters) to a consuming call; deny-list of reordering / truncating std calls in the API layer; def-use of every stage closure into the returned computation or the kernel call; truth-table re-execution of composed predicates (conjunction of their parts); unordered materialisation deny rule in transformations',
- 'C02': 'seeded origin propagation (finite domain of orderings x option tags) of the find reduction; index provenance; CFG reachability after a match; case re-execution of every search closure / hand-written first-match loop (summarised as the find_map it spells) with the user predicate fixed: accepts exactly what the filter accepts; def-use of the predicate and filter closures into the kernel call; return-place assignments on the CFG with the exhaustion edges cut (a no-match answer only after an observed dry pull); truth-table re-execution of composed predicates',
- 'C03': 'origin propagation with phi recurrences (accumulator threading); truth table of maybe_reduce by seeded propagation; case re-execution of every pull-driven kernel loop, filtering adaptor and search closure with the user predicate / has_value fixed (accepted elements feed the result on every path, rejected ones on none: must-pass-through on the pruned CFG); must-pass-through of element carriers (runner result, iterator parameters) to a consuming call; deny-list of reordering / truncating std calls in the API layer; def-use of every stage closure into the returned computation or the kernel call; who-passes-what on the reduce terminals (the operator parameter reaches the kernel unchanged, not a closure built around it); truth-table re-execution of composed predicates',
- 'C04': 'origin propagation with phi recurrences; operator shape of the cross-thread sum; case re-execution of every pull-driven kernel loop, filtering adaptor and search closure with the user predicate / has_value fixed (accepted elements feed the result on every path, rejected ones on none: must-pass-through on the pruned CFG); must-pass-through of element carriers (runner result, iterator parameters) to a consuming call; deny-list of reordering / truncating std calls in the API layer; def-use of every stage closure into the returned computation or the kernel call; truth-table re-execution of composed predicates',
- 'C05': 'signature facts of closure bounds; per-iteration call multiplicity on the CFG; drop-terminator inventory in must-visit tasks; case re-execution of every pull-driven kernel loop, filtering adaptor and search closure with the user predicate / has_value fixed (accepted elements feed the result on every path, rejected ones on none: must-pass-through on the pruned CFG); must-pass-through of element carriers (runner result, iterator parameters) to a consuming call; deny-list of reordering / truncating std calls in the API layer; def-use of every stage closure into the returned computation or the kernel call; who-may-receive rule for stage closures inside the kernels (iterator adaptors, Option / Result combinators, crate functions only)',
+ 'C01': 'origin-term dataflow over MIR: merge-key / slot provenance, append-only buffers, k-way-merge def-use facts, dominance of capacity reservation; per-path upper-bound analysis of the chunk-size resolution; receiver types of the source constructors; case re-execution of every pull-driven kernel loop, filtering adaptor and search closure with the user predicate / has_value fixed (accepted elements feed the result on every path, rejected ones on none: must-pass-through on the pruned CFG); must-pass-through of element carriers (runner result, iterator parameters) to a consuming call; deny-list of reordering / truncating std calls in the API layer; def-use of every stage closure into the returned computation or the kernel call; truth-table re-execution of composed predicates (conjunction of their parts); unordered materialisation deny rule in transformations; who-does-element-work rule on the parallel kernel entries (no pull and no stage-closure call outside the tasks)',
+ 'C02': 'seeded origin propagation (finite domain of orderings x option tags) of the find reduction; index provenance; CFG reachability after a match; case re-execution of every search closure / hand-written first-match loop (summarised as the find_map it spells) with the user predicate fixed: accepts exactly what the filter accepts; def-use of the predicate and filter closures into the kernel call; return-place assignments on the CFG with the exhaustion edges cut (a no-match answer only after an observed dry pull); truth-table re-execution of composed predicates; path conditions of literal-None answers inside search closures (only behind a user test or a search outcome)',
+ 'C03': 'origin propagation with phi recurrences (accumulator threading); truth table of maybe_reduce by seeded propagation; case re-execution of every pull-driven kernel loop, filtering adaptor and search closure with the user predicate / has_value fixed (accepted elements feed the result on every path, rejected ones on none: must-pass-through on the pruned CFG); must-pass-through of element carriers (runner result, iterator parameters) to a consuming call; deny-list of reordering / truncating std calls in the API layer; def-use of every stage closure into the returned computation or the kernel call; who-passes-what on the reduce terminals (the operator parameter reaches the kernel unchanged, not a closure built around it); truth-table re-execution of composed predicates; who-does-element-work rule on the parallel kernel entries (no pull and no stage-closure call outside the tasks)',
+ 'C04': 'origin propagation with phi recurrences; operator shape of the cross-thread sum; case re-execution of every pull-driven kernel loop, filtering adaptor and search closure with the user predicate / has_value fixed (accepted elements feed the result on every path, rejected ones on none: must-pass-through on the pruned CFG); must-pass-through of element carriers (runner result, iterator parameters) to a consuming call; deny-list of reordering / truncating std calls in the API layer; def-use of every stage closure into the returned computation or the kernel call; truth-table re-execution of composed predicates; who-does-element-work rule on the parallel kernel entries (no pull and no stage-closure call outside the tasks)',
+ 'C05': 'signature facts of closure bounds; per-iteration call multiplicity on the CFG; drop-terminator inventory in must-visit tasks; case re-execution of every pull-driven kernel loop, filtering adaptor and search closure with the user predicate / has_value fixed (accepted elements feed the result on every path, rejected ones on none: must-pass-through on the pruned CFG); must-pass-through of element carriers (runner result, iterator parameters) to a consuming call; deny-list of reordering / truncating std calls in the API layer; def-use of every stage closure into the returned computation or the kernel call; who-may-receive rule for stage closures inside the kernels (iterator adaptors, Option / Result combinators, crate functions only); who-does-element-work rule on the parallel kernel entries (no pull and no stage-closure call outside the tasks)',
  'C06': 'drop-elaborated MIR: no reachable Drop terminator on the by-value target (drop-flag aware via sparse conditional propagation); callee deny-list on &mut targets; must-pass-through of the iterator parameter of seq_extend to an append; constructor-vs-conversion origin of crate-built bridge vectors sent through the concurrent reservation; structural lower bound of every reserved amount by the input length; stores through the &mut target parameter (no assignment replaces the contents)',
- 'C07': 'origin of the appended fragments (run_map result, unmodified); append-only task buffers; case re-execution of every pull-driven kernel loop, filtering adaptor and search closure with the user predicate / has_value fixed (accepted elements feed the result on every path, rejected ones on none: must-pass-through on the pruned CFG); must-pass-through of element carriers (runner result, iterator parameters) to a consuming call; deny-list of reordering / truncating std calls in the API layer; def-use of every stage closure into the returned computation or the kernel call',
- 'C08': 'who-may-call over the resolved call graph; dominance of do_spawn true edge over in-loop spawns; path conditions of do_spawn; bounds on max_num_threads; dataflow of user closures into iterator terminals driven by the spawning thread',
+ 'C07': 'origin of the appended fragments (run_map result, unmodified); append-only task buffers; case re-execution of every pull-driven kernel loop, filtering adaptor and search closure with the user predicate / has_value fixed (accepted elements feed the result on every path, rejected ones on none: must-pass-through on the pruned CFG); must-pass-through of element carriers (runner result, iterator parameters) to a consuming call; deny-list of reordering / truncating std calls in the API layer; def-use of every stage closure into the returned computation or the kernel call; who-does-element-work rule on the parallel kernel entries (no pull and no stage-closure call outside the tasks)',
+ 'C08': 'who-may-call over the resolved call graph; dominance of do_spawn true edge over in-loop spawns; path conditions of do_spawn; bounds on max_num_threads; dataflow of user closures into iterator terminals driven by the spawning thread; no stage-closure call on the spawning thread inside the parallel kernel entries',
  'C09': 'dominance of is_sequential dispatch on every route (call graph + CFG); callee classification of sequential kernels; selection tables of the min/max wrappers by case re-execution (tie rules); dominance of concurrent reservations by the non-sequential edge; the acceptance / feed / stage-closure rules of C01-C05 applied to the sequential kernels; case analysis of is_sequential for Max(1) / Max(k != 1) / Auto including PartialEq::ne; terminal must-route (no answer without visiting the elements); operator pass-through on the reduce terminals',
  'C10': 'must-pass-through (skip_to_end before any maybe-Some return) on the CFG with discriminant refinement; no pull reachable after a match; call-graph laziness of the transformations in front of the terminal; no draining iterator method on user-fed iterators inside composed closures; setter frame rule (a chunk-size setter keeps num_threads) for the sequential-mode clause; chunk-size upper bound per pull',
  'C11': 'end-to-end origin chain of the chunk size through six links by seeded origin propagation; who-may-pull sweep: no pull of the shared source outside the worker tasks',
